@@ -165,6 +165,61 @@ Proof.
     intros He. subst id. apply mem_id_false in Hroot. exact (Hroot Hid).
 Qed.
 
+(* ---------- an aborted merge: some in-flight merges are forgotten ---------- *)
+
+Lemma In_flat_map_filter : forall {A B} (g : A -> list B) (f : A -> bool) l x,
+  In x (flat_map g (filter f l)) -> In x (flat_map g l).
+Proof.
+  intros A B g f l x H. apply in_flat_map in H. destruct H as [a [Ha Hx]]. apply filter_In in Ha.
+  apply in_flat_map. exists a. split; [exact (proj1 Ha) | exact Hx].
+Qed.
+
+Lemma NoDup_flat_map_filter : forall {A B} (g : A -> list B) (f : A -> bool) l,
+  NoDup (flat_map g l) -> NoDup (flat_map g (filter f l)).
+Proof.
+  intros A B g f. induction l as [|a l IH]; intros H; cbn [filter flat_map] in *.
+  - constructor.
+  - assert (Hl := IH (NoDup_app_r _ _ H)). destruct (f a); [|exact Hl].
+    cbn [flat_map]. apply NoDup_app_intro; [exact (NoDup_app_l _ _ H) | exact Hl |].
+    intros x Hx Hx'. exact (NoDup_app_disj _ _ x H Hx (In_flat_map_filter g f l x Hx')).
+Qed.
+
+Lemma Inv_drop_merges : forall s (f : merge -> bool),
+  Inv s -> Inv (mkSt (root s) (internal s) (filter f (inflight s)) (used_sids s) (epoch s)).
+Proof.
+  intros s f I. constructor; cbn [root internal inflight used_sids].
+  - exact (inv_sids_nodup s I).
+  - exact (inv_sids_used s I).
+  - unfold all_tnew. apply NoDup_flat_map_filter. exact (inv_tnew_nodup s I).
+  - intros x Hx. apply (inv_tnew_used s I). exact (In_flat_map_filter _ f _ x Hx).
+  - intros x Hx. apply (inv_tnew_root s I). exact (In_flat_map_filter _ f _ x Hx).
+  - unfold all_caps. apply NoDup_flat_map_filter. exact (inv_caps_nodup s I).
+  - intros x Hx. apply (inv_caps_used s I). exact (In_flat_map_filter _ f _ x Hx).
+  - intros x Hx Hx'. exact (inv_caps_tnew s I x (In_flat_map_filter _ f _ x Hx)
+                                            (In_flat_map_filter _ f _ x Hx')).
+  - intros m t c Hm Ht Hc. apply filter_In in Hm. exact (inv_cap_ok s I m t c (proj1 Hm) Ht Hc).
+  - exact (inv_I1 s I).
+  - exact (inv_internal s I).
+Qed.
+
+Lemma DInv_merge_abort : forall ef d x d',
+  DInv ef d -> dstep d (DMergeAbort x) = Some d' -> DInv ef d'.
+Proof.
+  intros ef d x d' I H. need_up H Hup. injection H as H. subst d'.
+  constructor; cbn [d_batches d_up d_core d_files d_pub d_nb d_bolt d_tx d_segdocs root epoch].
+  - exact (di_batches ef d I).
+  - intros _. apply Inv_drop_merges. exact (di_core ef d I Hup).
+  - intros _. exact (di_root ef d I Hup).
+  - intros _. exact (di_i5 ef d I Hup).
+  - exact (di_pub ef d I).
+  - exact (di_mono ef d I).
+  - exact (di_nble ef d I).
+  - exact (di_bolt ef d I).
+  - exact (di_named ef d I).
+  - exact (di_tx ef d I).
+  - exact (di_sorted ef d I).
+Qed.
+
 Lemma DInv_copy_start : forall ef d d',
   DInv ef d -> dstep d DCopyStart = Some d' -> DInv ef d'.
 Proof.
